@@ -124,6 +124,10 @@ def shard(args):
                 spec = clientsim.Spec(kind, request, retries=retries, retry_on_empty=both, retry_on_invalid=both, backoff=0.3,
                                       history=('write-single',))
                 explore_cfg(acc, spec, bound if tier == 'quick' else 2)
+                # ... and after an earlier transaction that was never answered (the client then reads differently)
+                spec = clientsim.Spec(kind, request, retries=retries, retry_on_empty=both, retry_on_invalid=both, backoff=0.3,
+                                      history=(('read-registers', 'silent'),))
+                explore_cfg(acc, spec, 1 if tier == 'quick' else 2)
         if retries:
             retry_contract(acc, kind, request, retries, 'empty')
             retry_contract(acc, kind, request, retries, 'invalid')
